@@ -6,7 +6,8 @@ From Coq Require Import List NArith ZArith Bool Arith Lia.
 Import ListNotations.
 From LI Require Import Base.StrOps Base.StrLemmas Parser.Parse Parser.Json Parser.Reduce Parser.Source
   Parser.Foreign Parser.ForeignProofs Parser.ForeignSound
-  Parser.RoundTripRef1 Parser.RoundTripRef2 Parser.RoundTripRef3 Parser.ForeignSound2.
+  Parser.RoundTripRef1 Parser.RoundTripRef2 Parser.RoundTripRef3 Parser.RoundTripRef4
+  Parser.ForeignSound2 Parser.ForeignFull Parser.ForeignSound4 Parser.ForeignSound5.
 Open Scope N_scope.
 
 Inductive snode := SVal (items : list ritem) | SNull | SSub (keys : list (str * snode)).
@@ -145,18 +146,29 @@ Proof.
 Qed.
 
 (** end to end, for every compiled project: the final value of every key that holds a source denotes
-    the source-level inlining semantics of that source (argument-less references, no formatter) *)
+    the source-level inlining semantics of that source.  The JSON oracle must read printed argument
+    objects correctly ([json_ok]) unless no reference of the project carries arguments. *)
 Theorem compiled_final_value_sound sv vals dflt inherits ns L path items :
+  json_or_noargs idc json_args (src_of_tree sv) ->
   compile sv = Some vals -> sget_value_at sv L (ns, path) = Some (SVal items) ->
   exists v, parse_top idc json_args true (rprint_list items) = Ok v /\ get_value_at vals L (ns, path) = Some (NVal v) /\
     forall r', final_value vals dflt inherits ns L path (NVal v) = Ok (Some r') ->
       (exists d, xdenote (xsrc (src_of_tree sv)) dflt inherits 200 L (map to_x items) = Some d /\ pieces r' = pc_norm d) /\
       (forall fuel d, xdenote (xsrc (src_of_tree sv)) dflt inherits fuel L (map to_x items) = Some d -> pieces r' = pc_norm d).
 Proof.
-  intros Hc Hs. pose proof (compile_proj_rel sv vals Hc) as HP.
+  intros HJ Hc Hs. pose proof (compile_proj_rel sv vals Hc) as HP.
   pose proof (HP L (ns, path)) as Hp. unfold src_of_tree in Hp at 1. rewrite Hs in Hp.
   destruct Hp as (W & Pl & v & Ev & Eg). exists v. split; [exact Ev|]. split; [exact Eg|].
   intros r' Hf. eapply final_value_xdenote; try eassumption.
   unfold src_of_tree. rewrite Hs. reflexivity.
 Qed.
 End Compile.
+
+(** with the JSON reader model of Parser/Json.v: no hypothesis on the oracle is left *)
+Corollary compiled_final_value_sound_model idc sv vals dflt inherits ns L path items :
+  compile idc json_args_model sv = Some vals -> sget_value_at sv L (ns, path) = Some (SVal items) ->
+  exists v, parse_top idc json_args_model true (rprint_list items) = Ok v /\ get_value_at vals L (ns, path) = Some (NVal v) /\
+    forall r', final_value vals dflt inherits ns L path (NVal v) = Ok (Some r') ->
+      (exists d, xdenote (xsrc (src_of_tree sv)) dflt inherits 200 L (map to_x items) = Some d /\ pieces r' = pc_norm d) /\
+      (forall fuel d, xdenote (xsrc (src_of_tree sv)) dflt inherits fuel L (map to_x items) = Some d -> pieces r' = pc_norm d).
+Proof. apply compiled_final_value_sound. right. apply json_model_ok. Qed.
